@@ -77,6 +77,14 @@ func c02ops() []c02op {
 		{"closures-over-loop-parameters-do", []int{mSeq}, toL, func(a []string, c int) string {
 			return f("(map (fn [g] (g)) (loopcapdo %s {} 0))", a[0])
 		}, nil},
+		// a closure captures a parameter; a let in tail position of the same function body then shadows
+		// that name with a value derived from it
+		{"closure-then-shadowing-let", []int{mSeq}, toL, func(a []string, c int) string {
+			return f("(shadowcap %s %d)", a[0], c)
+		}, nil},
+		{"closure-then-shadowing-let-in-let", []int{mSeq}, toL, func(a []string, c int) string {
+			return f("(let [s %s g (keepfn! (fn [] s) s)] (let [s (conj s %d)] (list (g) s)))", a[0], c)
+		}, nil},
 		{"map-rest-fn", []int{mSeq}, toL, func(a []string, c int) string { return f("(map (fn [& xs] (keep! xs) xs) %s)", a[0]) }, nil},
 		{"apply-rest-fn", []int{mSeq}, toL, func(a []string, c int) string { return f("(apply (fn [x & xs] (keep! xs) xs) %d %s)", c, a[0]) }, nil},
 		{"cons", []int{mSeq}, toL, func(a []string, c int) string { return f("(cons %d %s)", c, a[0]) }, nil},
@@ -147,6 +155,7 @@ const c02prelude = `(do
  (def at2 (atom nil))
  (defmacro mxq (fn [s & xs] (list 'concat s (list 'quote (concat xs (quote (77)))))))
  (def frest (fn [s & xs] (concat xs s)))
+ (def shadowcap (fn [s c] (let [g (keepfn! (fn [] s) s)] (let [s (conj s c)] (list (g) s)))))
  (def loopcap (fn [s acc] (if (empty? s) acc (loopcap (rest s) (conj acc (keepfn! (fn [] s) s))))))
  (def loopcapdo (fn [s m n] (do (if (empty? s) [(keepfn! (fn [] m) m)] (loopcapdo (rest s) (assoc m n (first s)) (+ n 1)))))))`
 
